@@ -380,6 +380,29 @@ func c19RunInner(c lib.Case, env *lib.Env) lib.Result {
 	if er2.Dirs != want.dirs || er2.Files != want.files || er2.Symlinks != want.links {
 		res.Violate("resumed-counts-wrong", rdesc, fmt.Sprintf("reported %+v, entries not skipped: %+v", *er2, want))
 	}
+	// history: a run that completed must leave nothing behind that changes the next one - a second, independent
+	// extraction with the SAME resume file path into a fresh empty directory has to reproduce the whole tree
+	time.Sleep(5 * time.Millisecond)
+	out3 := filepath.Join(env.Scratch, "out3")
+	settings3 := archiver.ExtractSettings{Consumer: lib.Quiet(), Concurrency: s.Workers, ResumeFrom: resumeFile}
+	stale, _ := os.ReadFile(resumeFile)
+	er3, err := archiver.ExtractZip(bytes.NewReader(arc), int64(len(arc)), out3, settings3)
+	if err != nil {
+		res.Violate("second-extraction-error", desc, err.Error())
+	} else {
+		got3, _ := lib.ReadTree(out3)
+		if got3 == nil {
+			got3 = lib.NewBuild()
+		}
+		if ds := lib.DiffBuilds(got3, tree, false); len(ds) > 0 {
+			res.Violate("second-extraction-with-same-resume-path-incomplete", append([]string{desc, fmt.Sprintf("resume file left behind by the completed first run: %q", string(stale))}, lib.DiffStrings(ds, 5)...)...)
+		}
+		w3 := zipCounts(zr, 0)
+		if er3.Dirs != w3.dirs || er3.Files != w3.files || er3.Symlinks != w3.links {
+			res.Violate("second-extraction-counts-wrong", desc, fmt.Sprintf("reported %+v, archive has %+v (resume file left behind: %q)", *er3, w3, string(stale)))
+		}
+		res.Add("second_extractions_same_resume_path", 1)
+	}
 	res.Feat = []string{fmt.Sprintf("%s|resume|w=%d|snap=%d|hold=%d", s.Tree, s.Workers, s.SnapAt, hold)}
 	if c.ID%17 == 0 {
 		res.Sample = map[string]interface{}{"tree": s.Tree, "workers": s.Workers, "snapshotAtCompletion": s.SnapAt, "heldEntry": hold, "resumeFileContent": string(rb), "heldReads": hr.held}
